@@ -705,6 +705,10 @@ def judge(R, r, kind, want, nsub, nq, given, support, order, tag):
             subs = list(r.subcircuits); ros = list(r.readouts)
         else:
             ros = list(r.readouts); subs = list(r.subcircuits)
+        # the views of a result can be read again (an iterator would be used up)
+        subs2 = list(r.subcircuits); ros2 = list(r.readouts)
+        if len(subs2) != len(subs) or len(ros2) != len(ros) or any(a is not b for a, b in zip(subs + ros, subs2 + ros2)):
+            return [(vname, False, f"{tag}: result.subcircuits / result.readouts read twice: {len(subs)} / {len(ros)} objects, then {len(subs2)} / {len(ros2)} (or other objects)")]
     except Exception as e:
         return [(vname, False, f"{tag}: reading the result: {type(e).__name__}: {e}")]
     # ---- per-subcircuit views, in random order
@@ -1022,25 +1026,24 @@ def has_bad(case):
     return any(s["op"].startswith("bad_") for s in case["steps"])
 
 
-def exec_isolated(case, R=None):
-    """run a case in a forked child (cases with failing calls: whatever they leave behind in the process must not
-    reach other cases); falls back to in-process execution when fork is not available"""
-    R = R or _load()
-    if not has_bad(case) or not hasattr(os, "fork"):
-        return exec_case(case, R)
+def _in_child(fn):
+    """run fn() in a forked child and return its JSON result (None when fork is unavailable, "died" when the child
+    produced nothing)"""
+    if not hasattr(os, "fork"):
+        return None
     try:
         rd, wr = os.pipe()
         pid = os.fork()
     except OSError:
-        return exec_case(case, R)
+        return None
     if pid == 0:
         code = 0
         try:
             os.close(rd)
             try:
-                data = json.dumps(exec_case(case, R)).encode()
+                data = json.dumps(fn()).encode()
             except BaseException as e:       # noqa
-                data = json.dumps([["traps_terminates", False, f"harness child: {type(e).__name__}: {e}", -1]]).encode()
+                data = json.dumps({"harness_error": f"{type(e).__name__}: {e}"}).encode()
             with os.fdopen(wr, "wb") as f:
                 f.write(data)
         except BaseException:                # noqa
@@ -1058,7 +1061,32 @@ def exec_isolated(case, R=None):
     try:
         return json.loads(b"".join(chunks).decode())
     except Exception:
-        return [["traps_terminates", False, "the child process that ran this history died without a result", -1]]
+        return "died"
+
+
+def exec_isolated(case, R=None):
+    """run a case with failing calls in a forked child of its own (whatever such calls leave behind in the process
+    must not reach other cases or the process of the check); falls back to in-process execution without fork"""
+    R = R or _load()
+    if not has_bad(case):
+        return exec_case(case, R)
+    res = _in_child(lambda: exec_case(case, R))
+    if res is None:
+        return exec_case(case, R)
+    if res == "died" or isinstance(res, dict):
+        return [["traps_terminates", False, f"the child process that ran this history gave no result ({res})", -1]]
+    return res
+
+
+def exec_batch(cases, R=None):
+    """several cases with failing calls in ONE forked child (a fork costs as much as ten cases).  When every check of
+    the batch holds, that is the result; as soon as one fails, every case of the batch is run again in a child of its
+    own, so that a reported failure never depends on what another case left behind and replays deterministically."""
+    R = R or _load()
+    res = _in_child(lambda: [exec_case(c, R) for c in cases])
+    if isinstance(res, list) and len(res) == len(cases) and all(ok for chk in res for _, ok, _, _ in chk):
+        return res
+    return [exec_isolated(c, R) for c in cases]
 
 
 def strip(case):
@@ -1080,10 +1108,17 @@ def run(seed: int, n: int, driver: str = DEFAULT_DRIVER, thorough: bool = False)
         dist[k] = dist.get(k, 0) + v
 
     weights = ["fail"] * 4 + ["views"] * 3 + ["derived"] * 2 + ["names"] * 2 + ["forms"] * 2
+    cases = [gen_case(rng, weights[i % len(weights)], thorough) for i in range(n)]
+    results = {}
+    bad_idx = [i for i, c in enumerate(cases) if has_bad(c)]
+    for b in range(0, len(bad_idx), 25):
+        chunk = bad_idx[b:b + 25]
+        for i, chk in zip(chunk, exec_batch([cases[i] for i in chunk], R)):
+            results[i] = chk
     for i in range(n):
         stream = weights[i % len(weights)]
-        case = gen_case(rng, stream, thorough)
-        checks = exec_isolated(case, R)
+        case = cases[i]
+        checks = results[i] if i in results else exec_case(case, R)
         failed = set()
         for name, ok, detail, idx in checks:
             oracle[name]["cases"] += 1
